@@ -157,7 +157,9 @@ func c15Exec(c *fw.Ctx, hlen int, seq []int) (key string, extend, nontrivial boo
 				for ; times > 0; times-- {
 					nid[f[1]]++
 					id := fmt.Sprintf("%d", nid[f[1]])
-					hub.Dispatch(event.MessageMetadata{Mailbox: f[1], ID: id, Subject: "s" + id})
+					// as the server does it: the store's event goes through the extension host, whose
+					// worker hands it to the hub
+					ext.Events.AfterMessageStored.Emit(&event.MessageMetadata{Mailbox: f[1], ID: id, Subject: "s" + id})
 					mo.stored = append(mo.stored, f[1]+"/"+id)
 					for _, l := range ls {
 						// history length 0 is documented to disable the monitor: nothing is relayed
@@ -196,7 +198,7 @@ func c15Exec(c *fw.Ctx, hlen int, seq []int) (key string, extend, nontrivial boo
 					p := strings.SplitN(h[len(h)-1], "/", 2)
 					mb, id = p[0], p[1]
 				}
-				hub.Delete(mb, id)
+				ext.Events.AfterMessageDeleted.Emit(&event.MessageMetadata{Mailbox: mb, ID: id})
 				mo.deleted[mb+"/"+id] = true
 				for _, l := range ls {
 					if match(l, mb) && l.kind != "v1" && hlen > 0 { // the v1 socket API has no delete events
